@@ -458,3 +458,335 @@ def check_hyperplane(prog, res, rule='L2'):
             'coefficients (constant kernels are feasible)',
             'the last hyperplane coefficient is no longer -sum(equation): a '
             'constant kernel would be reported as violating')
+
+
+# ---------------------------------------------------------------------------
+def _nonneg_dominating(form, want_atoms):
+  """form is a non-negative combination of relu atoms, one of which (with
+  coefficient >= 1) is relu(A) for an aggregate / violation A in
+  want_atoms.  Returns the matched inner form or None."""
+  matched = None
+  for a, c in form.t.items():
+    if a[0] != 'relu' or c < 0:
+      return None
+    inner = a[1].form
+    if c >= 1 and matched is None:
+      hit = want_atoms(inner)
+      if hit is not None:
+        matched = hit
+  if form.c != 0:
+    return None
+  return matched
+
+
+def violation_of(inner):
+  """inner form of a relu: either aggmax(V) (opaque aggregate >= V) or V
+  itself.  Returns V (Form over cells) or None."""
+  if len(inner.t) == 1 and inner.c == 0:
+    (a, c), = inner.t.items()
+    if a[0] == 'aggmax' and c == 1:
+      return a[1].form
+  if all(a[0] == 'cell' for a in inner.t) and inner.c == 0:
+    return inner
+  return None
+
+
+def check_local_repairs(prog, res, rule='L8'):
+  """C01: every step of the strict (approximate) projections repairs its own
+  violation V by moving ONE cell c by sigma * U with U >= relu(V) (U is
+  relu(V), relu(max-over-units V) or the running maximum of those) and
+  coeff_V(c) * sigma = -1, so V' = V - U <= 0; and the moved cell is the
+  upper corner when raised / the lower corner when lowered, which cannot
+  break monotonicity in the main dimension."""
+  n = 0
+  # ---- Edgeworth
+  fn = prog.function(LL + '._approximately_project_edgeworth')
+  res.analysed(fn)
+  for direction in (1, -1):
+    case = Case({'cond_direction': direction})
+    k = extract(prog, fn, case)
+    n += _judge_repair(res, rule, fn, 'edgeworth|cond_direction=%d' %
+                       direction, k.deltas(), main_axis=0,
+                       expect_cells=1)
+  # ---- trapezoid (3 edgeworth interplay modes x lhs / rhs)
+  fn = prog.function(LL + '._approximately_project_trapezoid')
+  helper = prog.function(LL + '._trapezoid_violation_update')
+  res.analysed(fn, helper)
+  outer = [s for s in fn.node.body if isinstance(s, ast.For)][0]
+  inner = [s for s in outer.body if isinstance(s, ast.For)][0]
+  for any_e, same_e in ((False, False), (True, False), (True, True)):
+    for half, stmts in (('lhs', inner.body[:3]), ('rhs', inner.body[3:])):
+      case = Case({'any_edgeworth': any_e, 'same_edgeworth': same_e,
+                   'cond_direction': 1})
+      ref = [None]
+      k = Kernel(prog, fn, ('layers',), None, scalars={
+          'lhs_update': Form.atom(('cell', 'prior_lhs_update')),
+          'rhs_update': Form.atom(('cell', 'prior_rhs_update'))})
+      k.inline_helpers = True
+      ref[0] = k
+      k.decide = make_decider(ref, case, fn)
+      k.run(stmts)
+      n += _judge_repair(res, rule, fn,
+                         'trapezoid|any_edgeworth=%s,same=%s|%s' % (
+                             any_e, same_e, half), k.deltas(), main_axis=0,
+                         expect_cells=1, prior_ok=same_e)
+  # ---- monotonicity sweeps (L5)
+  fn = prog.function(LL + '._approximately_project_monotonicity')
+  res.analysed(fn)
+  loops = [l for l in ast.walk(fn.node) if isinstance(l, ast.For)
+           and dotted(l.target) == 'i']
+  if len(loops) != 2:
+    raise AnalysisError('_approximately_project_monotonicity: expected two '
+                        'sweeps over i')
+  for loop in loops:
+    rng = loop.iter
+    step = const_value(rng.args[2]) if len(rng.args) > 2 else 1
+    case = Case({})
+    ref = [None]
+    k = Kernel(prog, fn, ('layers',), None)
+    ref[0] = k
+    k.decide = make_decider(ref, case, fn)
+    k.run(loop.body)
+    d = k.deltas()
+    label = 'monotonicity|%s-sweep' % ('forward' if step > 0 else 'backward')
+    n += _judge_repair(res, 'L5', fn, label, d, main_axis=None,
+                       expect_cells=1)
+    # neighbour already final: ascending sweep reads i-1, descending i+1
+    offs = set()
+    for sub in ast.walk(loop):
+      if isinstance(sub, ast.Subscript) and dotted(sub.value) == 'layers' \
+          and isinstance(sub.ctx, ast.Load):
+        e = sub.slice
+        if isinstance(e, ast.BinOp) and dotted(e.left) == 'i':
+          c = const_value(e.right)
+          offs.add(c if isinstance(e.op, ast.Add) else -c)
+    res.check(len(offs) == 1 and (step > 0) == (list(offs)[0] < 0), 'L5',
+              label + '|order', fn.loc(loop),
+              '%s sweep reads the neighbour %+d, which is already final' % (
+                  'ascending' if step > 0 else 'descending',
+                  list(offs)[0] if offs else 0),
+              'the %s sweep reads neighbour offsets %s: the neighbour is not '
+              'final yet, so the result need not be monotone' % (
+                  'ascending' if step > 0 else 'descending', sorted(offs)))
+    start = const_value(rng.args[0]) if len(rng.args) > 1 else 0
+    n += 1
+  # half step: (weights + max_projection) / 2  -> identity when feasible
+  half = None
+  for st in ast.walk(fn.node):
+    if isinstance(st, ast.Assign) and dotted(st.targets[0]) == \
+        'half_projection':
+      half = st.value
+  if half is None:
+    raise AnalysisError('_approximately_project_monotonicity: half step '
+                        'vanished')
+  k = Kernel(prog, fn, (), None, scalars={
+      'weights': Form.atom(('cell', 'w')),
+      'max_projection': Form.atom(('cell', 'w'))})
+  v = k.val(half)
+  res.check(v == Form.atom(('cell', 'w')), 'L5', 'monotonicity|half-step',
+            fn.loc(half),
+            'half_projection = (weights + max_projection) / 2 equals weights '
+            'when max_projection == weights (feasible kernels are fixed)',
+            'with max_projection == weights the half step gives %s instead '
+            'of weights: a feasible kernel is moved' % v)
+  k2 = Kernel(prog, fn, (), None, scalars={
+      'weights': Form.atom(('cell', 'w')),
+      'max_projection': Form.atom(('cell', 'p'))})
+  v2 = k2.val(half)
+  cw = v2.t.get(('cell', 'w'), 0)
+  cp = v2.t.get(('cell', 'p'), 0)
+  res.check(cw > 0 and cp > 0 and cw + cp == 1, 'L5',
+            'monotonicity|half-step-convex', fn.loc(half),
+            'half step is a convex combination (%s, %s)' % (cw, cp),
+            'the half step %s is not a convex combination of weights and '
+            'max_projection' % v2)
+  seq = []
+  for st in fn.node.body:
+    if isinstance(st, ast.Assign) and isinstance(st.targets[0], ast.Name):
+      seq.append((st.targets[0].id, dotted(st.value)))
+  ret = [s for s in fn.node.body if isinstance(s, ast.Return)]
+  good = (('max_projection', 'weights') in seq and
+          ('min_projection', 'half_projection') in seq and ret and dotted(
+              ret[-1].value) == 'min_projection')
+  res.check(good, 'L5', 'monotonicity|chaining', fn.loc(),
+            'max sweep starts from weights, min sweep from the half step, '
+            'the min sweep result is returned',
+            'the sweeps are no longer chained weights -> max -> half -> min '
+            '-> return')
+  res.floor(rule, 8)
+  res.floor('L5', 7)
+  return n
+
+
+def _judge_repair(res, rule, fn, key, deltas, main_axis, expect_cells,
+                  prior_ok=False):
+  if len(deltas) != expect_cells:
+    res.violation(rule, key, fn.loc(),
+                  'one repair step moves %d cells (%s), expected %d' % (
+                      len(deltas), sorted(deltas), expect_cells))
+    return 1
+  (cell, d), = deltas.items()
+  # sign and magnitude
+  pos = all(c > 0 for c in d.t.values())
+  neg = all(c < 0 for c in d.t.values())
+  if not (pos or neg) or d.c != 0:
+    res.violation(rule, key, fn.loc(),
+                  'the update %s of %s is not a one-signed repair' % (d, cell))
+    return 1
+  sigma = 1 if pos else -1
+  U = d if pos else -d
+  V = _nonneg_dominating(U, violation_of)
+  if V is None:
+    res.violation(rule, key, fn.loc(),
+                  'the update %s of %s is not >= relu(violation): it must be '
+                  'relu(V), relu(max over units of V) or the running maximum '
+                  'of those' % (d, cell))
+    return 1
+  coef = V.t.get(('cell', cell), 0)
+  good = coef * sigma == -1
+  res.check(good, rule, key, fn.loc(),
+            'cell %s moves by %s(>= relu V), V = %s: V decreases by at least '
+            'its violation' % (cell, '+' if sigma > 0 else '-', V),
+            'cell %s has coefficient %s in the violation V = %s but is moved '
+            'with sign %+d: the repair %s the violation' % (
+                cell, coef, V, sigma, 'does not touch' if coef == 0
+                else 'increases'))
+  if main_axis is not None:
+    idx = cell.split('[')[1 + main_axis].rstrip(']')
+    upper = idx.endswith('+1') or 'max_main_dim' in idx
+    res.check((sigma > 0) == upper, rule, key + '|corner', fn.loc(),
+              '%s corner (main index %s) is %s: monotonicity in the main '
+              'dimension cannot break' % ('upper' if upper else 'lower', idx,
+                                          'raised' if sigma > 0 else
+                                          'lowered'),
+              'the repair %s the %s corner (main index %s): this can break '
+              'monotonicity in the main dimension established by the '
+              'previous step' % ('raises' if sigma > 0 else 'lowers',
+                                 'upper' if upper else 'lower', idx))
+  return 1
+
+
+# ---------------------------------------------------------------------------
+def check_bounds_map(prog, res, rule='L7'):
+  """_approximately_project_bounds: the two-sided branch is the affine map
+  sending (output_min - min_violation) to output_min and (output_max +
+  max_violation) to output_max; the one-sided branches are gated shifts of
+  the right sign."""
+  from . import ratfun
+  from .ratfun import Rat
+  fn = prog.function(LL + '._approximately_project_bounds')
+  res.analysed(fn)
+  chain = [s for s in fn.node.body if isinstance(s, ast.If)]
+  if not chain:
+    raise AnalysisError('_approximately_project_bounds: dispatch vanished')
+  from . import guards
+  branches = {}
+  for smin, smax in (('nonzero', 'none'), ('none', 'nonzero'),
+                     ('nonzero', 'nonzero'), ('none', 'none')):
+    env = {'output_min': guards.Val('bound', smin),
+           'output_max': guards.Val('bound', smax)}
+    stmts = guards.trace(prog, fn, env)
+    branches[(smin != 'none', smax != 'none')] = [
+        s for s in stmts if isinstance(s, (ast.AugAssign, ast.Assign))
+        and 'final_projection' in {dotted(t) for t in (
+            s.targets if isinstance(s, ast.Assign) else [s.target])}
+        and not (isinstance(s, ast.Assign) and dotted(s.value) == 'weights')]
+  # one-sided: final += relu(min - aggmin(final)) ; final -= relu(aggmax - max)
+  for key, (op, lhs, rhs, word) in {
+      (True, False): (ast.Add, 'output_min', 'tf.reduce_min', 'min'),
+      (False, True): (ast.Sub, 'tf.reduce_max', 'output_max', 'max')}.items():
+    stmts = branches[key]
+    good = len(stmts) == 1 and isinstance(stmts[0], ast.AugAssign) and \
+        isinstance(stmts[0].op, op)
+    if good:
+      v = stmts[0].value
+      good = (isinstance(v, ast.Call) and prog.ext_name(fn.module, v.func) in (
+          'tf.maximum',) and const_value(v.args[1]) == 0 and isinstance(
+              v.args[0], ast.BinOp) and isinstance(v.args[0].op, ast.Sub))
+      if good:
+        l, r = v.args[0].left, v.args[0].right
+        def tag(e):
+          if isinstance(e, ast.Call):
+            return prog.ext_name(fn.module, e.func)
+          return dotted(e)
+        good = tag(l) == lhs and tag(r) == rhs
+    res.check(good, rule, '_approximately_project_bounds|%s-only' % word,
+              fn.loc(),
+              'only %s: shift by relu(%s - %s) with sign %s' % (
+                  word, lhs, rhs, '+' if op is ast.Add else '-'),
+              'the %s-only branch is not the gated shift final %s= '
+              'max(%s - %s, 0)' % (word, '+' if op is ast.Add else '-', lhs,
+                                   rhs))
+  res.check(not branches[(False, False)], rule,
+            '_approximately_project_bounds|unbounded', fn.loc(),
+            'no bounds: kernel unchanged',
+            'without bounds the kernel is modified: %s' % [
+                norm_text(s) for s in branches[(False, False)]])
+  # two-sided: rational identity
+  stmts = branches[(True, True)]
+  env = {'output_min': Rat.sym('m'), 'output_max': Rat.sym('M'),
+         'min_violation': Rat.sym('a'), 'max_violation': Rat.sym('b'),
+         'final_projection': Rat.sym('x')}
+  x = env['final_projection']
+  for s in stmts:
+    if isinstance(s, ast.AugAssign):
+      v = ratfun.eval_expr(s.value, env)
+      if isinstance(s.op, ast.Add):
+        x = x + v
+      elif isinstance(s.op, ast.Sub):
+        x = x - v
+      elif isinstance(s.op, ast.Mult):
+        x = x * v
+      elif isinstance(s.op, ast.Div):
+        x = x / v
+      else:
+        raise AnalysisError('%s: operator' % fn.loc(s))
+      env['final_projection'] = x
+    else:
+      x = ratfun.eval_expr(s.value, env)
+      env['final_projection'] = x
+  lo = x.subs('x', Rat.sym('m') - Rat.sym('a'))
+  hi = x.subs('x', Rat.sym('M') + Rat.sym('b'))
+  res.check(lo.equals(Rat.sym('m')), rule,
+            '_approximately_project_bounds|two-sided|low-end', fn.loc(),
+            'the map sends output_min - min_violation to output_min',
+            'two-sided rescaling maps (output_min - min_violation) to %s, '
+            'not to output_min' % lo)
+  res.check(hi.equals(Rat.sym('M')), rule,
+            '_approximately_project_bounds|two-sided|high-end', fn.loc(),
+            'the map sends output_max + max_violation to output_max',
+            'two-sided rescaling maps (output_max + max_violation) to %s, '
+            'not to output_max' % hi)
+  # with no violation the map is the identity
+  ident = x
+  for nm in ('a', 'b'):
+    ident = Rat(ident.n.subs(nm, ratfun.Poly()), ident.d.subs(
+        nm, ratfun.Poly()))
+  res.check(ident.equals(Rat.sym('x')), rule,
+            '_approximately_project_bounds|two-sided|identity', fn.loc(),
+            'with zero violations the map is the identity (feasible kernels '
+            'are unchanged)',
+            'with zero violations the two-sided map is %s, not the identity' %
+            ident)
+  # the violations are the right gated quantities
+  defs = {}
+  for st in ast.walk(fn.node):
+    if isinstance(st, ast.Assign) and isinstance(st.targets[0], ast.Name):
+      defs[st.targets[0].id] = st.value
+  for nm, (l, r) in (('max_violation', ('tf.reduce_max', 'output_max')),
+                     ('min_violation', ('output_min', 'tf.reduce_min'))):
+    v = defs.get(nm)
+    good = False
+    if isinstance(v, ast.Call) and prog.ext_name(
+        fn.module, v.func) == 'tf.maximum' and const_value(
+            v.args[1]) == 0 and isinstance(v.args[0], ast.BinOp) and \
+        isinstance(v.args[0].op, ast.Sub):
+      def tag(e):
+        if isinstance(e, ast.Call):
+          return prog.ext_name(fn.module, e.func)
+        return dotted(e)
+      good = (tag(v.args[0].left), tag(v.args[0].right)) == (l, r)
+    res.check(good, rule, '_approximately_project_bounds|%s' % nm, fn.loc(),
+              '%s = max(%s - %s, 0)' % (nm, l, r),
+              '%s is not max(%s - %s, 0)' % (nm, l, r))
+  res.floor(rule, 8)
